@@ -82,6 +82,36 @@ Definition ecase_model_ok (c : ecase) : bool := agree_on (e_probe c) (e_out c) (
 Definition ecase_prop_ok (c : ecase) : bool :=
   agree_on (e_probe c) (e_out c) (dispatch (e_cfg c) (e_kind c) (e_in c)).
 
+(* The same two checks modulo ONE artefact of net/http's request writer: it writes the
+   User-Agent field (exactly this spelling of the key) itself, ONCE, from the first value,
+   and not at all when that value is empty (the empty value is net/http's own way of saying
+   "send none").  ua_norm maps a header set to what that writer puts on the wire for this
+   one key.  A case that fails the strict check but passes this one shows exactly that
+   artefact ('User-Agent;' yields no field at the next hop instead of an empty one;
+   'User-Agent: x' added to a request that has one already is not seen) and is reported
+   under its own key. *)
+Fixpoint ua_norm (h : hmap) : hmap :=
+  match h with
+  | [] => []
+  | (k, vs) :: r =>
+      if str_eqb k (b "User-Agent") then
+        match vs with
+        | [] => ua_norm r
+        | v :: _ => match v with [] => ua_norm r | _ => (k, [v]) :: ua_norm r end
+        end
+      else (k, vs) :: ua_norm r
+  end.
+Definition is_request_kind (k : msg_kind) : bool :=
+  match k with ReqPlain | ReqConnect => true | _ => false end.
+Definition ecase_model_ok_ua (c : ecase) : bool :=
+  if is_request_kind (e_kind c)
+  then agree_on (e_probe c) (ua_norm (e_out c)) (ua_norm (ecase_expected c))
+  else ecase_model_ok c.
+Definition ecase_prop_ok_ua (c : ecase) : bool :=
+  if is_request_kind (e_kind c)
+  then agree_on (e_probe c) (ua_norm (e_out c)) (ua_norm (dispatch (e_cfg c) (e_kind c) (e_in c)))
+  else ecase_prop_ok c.
+
 (* whole-list case: Headers.ModifyRequest / ModifyResponse on a complete rule list *)
 Record lcase := { l_rules : list rule; l_start : hmap; l_final_req : hmap; l_final_resp : hmap }.
 Definition lcase_model_ok (c : lcase) : bool :=
@@ -101,3 +131,43 @@ Fixpoint spec_fold (rs : list rule) (h : hmap) : hmap :=
 Definition lcase_prop_ok (c : lcase) : bool :=
   hmap_eqb (spec_fold (l_rules c) (l_start c)) (l_final_req c) &&
   hmap_eqb (spec_fold (l_rules c) (l_start c)) (l_final_resp c).
+
+(* channel case: what was given on the command line / in the environment / in the
+   config file for ONE header flag, the element-wise result of the real ParseHeader
+   on the rule strings the generator meant to pass (when it meant any), and the rule
+   list the real flag machinery ended up with (None = refused) *)
+From G16 Require Export ModelChan.
+Record fcase := { f_in : chan_input; f_meant : bool; f_each : list (option rule); f_out : option (list rule) }.
+
+Fixpoint rules_eqb (a c : list rule) : bool :=
+  match a, c with
+  | [], [] => true
+  | x :: r, y :: s => rule_eqb x y && rules_eqb r s
+  | _, _ => false
+  end.
+Definition opt_rules_eqb (x y : option (list rule)) : bool :=
+  match x, y with
+  | Some a, Some c => rules_eqb a c
+  | None, None => true
+  | _, _ => false
+  end.
+
+Definition chan_in_domain (c : chan_input) : bool :=
+  forallb csv_in_domain (ci_flags c) && csv_in_domain (ci_env c) &&
+  match ci_file c with FileScalar s => csv_in_domain s | _ => true end.
+
+Definition fcase_model_ok (c : fcase) : bool :=
+  if chan_in_domain (f_in c) then opt_rules_eqb (rules_in_effect (f_in c)) (f_out c) else true.
+
+Fixpoint all_or_nothing (l : list (option rule)) : option (list rule) :=
+  match l with
+  | [] => Some []
+  | Some x :: r => match all_or_nothing r with Some xs => Some (x :: xs) | None => None end
+  | None :: _ => None
+  end.
+
+(* oracle: the rules in effect are the rules given, each parsed on its own, in order
+   (refused iff one of them is refused); whatever is in effect is a legal rule *)
+Definition fcase_prop_ok (c : fcase) : bool :=
+  (if f_meant c then opt_rules_eqb (f_out c) (all_or_nothing (f_each c)) else true) &&
+  match f_out c with Some rs => forallb legal_rule rs | None => true end.
